@@ -36,16 +36,24 @@ def main():
         items.append((pid, f))
     for mf in sorted(glob.glob(os.path.join(ROOT, "seeded", "*", "meta.json"))):
         m = json.load(open(mf))
-        for pid in m.get("detected_by", [m.get("property")]):
+        for pid in (m.get("detected_by") or [m.get("property")]):
             items.append((pid, os.path.join(os.path.dirname(mf), "patch.diff")))
+    # behaviour-preserving changes (benign/): the checks must stay quiet
+    quiet = []
+    for mf in sorted(glob.glob(os.path.join(ROOT, "benign", "*", "meta.json"))):
+        m = json.load(open(mf))
+        for pid in m.get("checks", {m.get("property"): 0}):
+            quiet.append((pid, os.path.join(os.path.dirname(mf), "patch.diff")))
+    jobs = int(os.environ.get("SELFTEST_JOBS", "3"))
+    todo = [(pid, f, 1) for pid, f in items if not want or pid in want] + [(pid, f, 0) for pid, f in quiet if not want or pid in want]
+    from concurrent.futures import ThreadPoolExecutor
     bad = 0
-    for pid, f in items:
-        if want and pid not in want:
-            continue
-        r = run_one(pid, f)
-        ok = r.startswith("rc=1")
-        bad += not ok
-        print("%s %-50s %s" % ("CAUGHT" if ok else "MISSED", os.path.relpath(f, ROOT), r), flush=True)
+    with ThreadPoolExecutor(max_workers=jobs) as ex:
+        for (pid, f, expect), r in zip(todo, ex.map(lambda t: run_one(t[0], t[1]), todo)):
+            ok = r.startswith("rc=%d" % expect)
+            bad += not ok
+            word = ("CAUGHT" if ok else "MISSED") if expect else ("QUIET" if ok else "FALSE-ALARM")
+            print("%s %s %-50s %s" % (word, pid, os.path.relpath(f, ROOT), r), flush=True)
     return 1 if bad else 0
 
 
